@@ -21,7 +21,7 @@ from props.c09 import exec_twin, twin_cases
 PID = "C02"
 LEVEL = "exploration"
 RULE = (
-    "evidence: cells generated from VERIF_SEED over target families {interior Gaussian, wall-abutting, bimodal, periodic von Mises, exp-prior, zero-likelihood slab} x "
+    "evidence: cells generated from VERIF_SEED over target families {interior Gaussian, wall-abutting, bimodal, periodic von Mises, exp-prior, zero-likelihood slab, likelihood 1000x narrower than the prior} x "
     "kernel x resampler x clustering, d in {1,2}; R seeded full runs per cell at N=32 and at 4N=128. evaluations = sampler runs; non-trivial = "
     "a run with >= 2 prior-phase and >= 3 annealing iterations; distinct = (cell, N, replica seed). twins: Hypothesis-generated configurations, "
     "divergence index and seed pairs; non-trivial = clustering on and >= 1 post-divergence annealing iteration."
@@ -34,12 +34,12 @@ ASSUMPTIONS = [
 CHECK = "evidence"
 A_COEF = 1.5
 CHUNK = 4
-FAMS = ["gauss", "wall", "bimodal", "periodic", "exp-prior", "zero-region"]
+FAMS = ["gauss", "wall", "bimodal", "periodic", "exp-prior", "zero-region", "narrow"]
 
 
 def cells_for(tier, seed):
     rng = np.random.default_rng([seed, 202])
-    n = 6 if tier == "quick" else 24
+    n = 7 if tier == "quick" else 28
     cells = []
     for i in range(n):
         cells.append(ens.make_cell(int(rng.integers(0, 2**31 - 1)), family=FAMS[i % len(FAMS)], kernel=["tpcn", "rwm"][(i + i // len(FAMS)) % 2], clustering=bool(i % 2 == 0), N=32))
